@@ -30,6 +30,9 @@ type Spec struct {
 	Reenter uint8  `json:"reenter,omitempty"` // callback re-entry: 0 none, 1 Get(k) (must not return the evicted value), 2 Count(), 3 both
 	Cleanup int64  `json:"cleanup,omitempty"` // cleanup interval handed to constructor (virtual clock: ticker never fires)
 	Native  bool   `json:"native,omitempty"`  // natively parallel use: no callback attribution (it is per virtual thread)
+	// Alias maps small key ids to other ids for string-keyed containers (id -> "k<alias>"): lets a
+	// generator make hot keys out of strings found by a search (top-hash collisions). Recomputed per process.
+	Alias map[int]int `json:"-"`
 }
 
 func (s Spec) IsCache() bool { return s.Kind == "cache" || s.Kind == "cacheof" }
@@ -125,6 +128,31 @@ type codec[K comparable] struct {
 
 func intCodec() codec[int] {
 	return codec[int]{to: func(i int) int { return i*7919 + 13 }, from: func(k int) int { return (k - 13) / 7919 }}
+}
+
+func strCodecAlias(alias map[int]int) codec[string] {
+	base := strCodec()
+	if len(alias) == 0 {
+		return base
+	}
+	back := map[int]int{}
+	for k, v := range alias {
+		back[v] = k
+	}
+	return codec[string]{
+		to: func(i int) string {
+			if a, ok := alias[i]; ok {
+				return "k" + strconv.Itoa(a)
+			}
+			return base.to(i)
+		},
+		from: func(s string) int {
+			n := base.from(s)
+			if k, ok := back[n]; ok {
+				return k
+			}
+			return n
+		}}
 }
 
 func strCodec() codec[string] {
@@ -588,7 +616,7 @@ func (a *cacheAd) Do(o *model.Op) (r model.Res) {
 }
 
 func newCache(s Spec) API {
-	a := &cacheAd{spec: s, kc: strCodec(), ss: &sinkSet{}}
+	a := &cacheAd{spec: s, kc: strCodecAlias(s.Alias), ss: &sinkSet{}}
 	a.cb = a.mkCallback()
 	var cb cache.EvictedCallback
 	if s.CB {
@@ -801,7 +829,7 @@ func newCacheOf[K comparable](s Spec, kc codec[K]) API {
 func New(s Spec) API {
 	switch s.Kind {
 	case "map":
-		a := &mapAd{spec: s, kc: strCodec()}
+		a := &mapAd{spec: s, kc: strCodecAlias(s.Alias)}
 		if s.Presize != 0 {
 			a.m = cache.NewMapPresized(s.Presize)
 		} else {
